@@ -16,7 +16,9 @@ PID = 'C12'
 SHARDS = {'quick': 1, 'thorough': 16}
 
 # the last five: combining marks and singleton code points that a Unicode normalisation would rewrite
-UNLEXABLE = ['§', '€', 'ß', 'ø', '¿', '日', '\u0301', '\u0303', '\u0327', '\u212b', '\u2126']
+UNLEXABLE = ['§', '€', 'ß', 'ø', '¿', '日', '\u0301', '\u0303', '\u0327', '\u212b', '\u2126',
+             # invisible characters: byte-order mark / zero-width no-break space, zero-width space, soft hyphen, word joiner
+             '\ufeff', '\u200b', '\xad', '\u2060']
 
 
 def malformed(rng):
